@@ -26,17 +26,22 @@ P = {
         "n_quick": 300, "n_thorough": 6000, "shard": 56,
         "findings": {4: "C11-F4", 8: "C11-F8", 9: "C11-F9"},
     }],
-    "rule": "histories of 2-6 executions of REAL caching mechanisms (oauth2_introspection and generic authenticators, remote "
-            "authorizer, generic contextualizer) created by the real mechanism factory from a generated prototype (0-3 endpoint "
+    "rule": "stream histories: histories of 2-6 executions of REAL caching mechanisms (oauth2_introspection and generic authenticators, "
+            "remote authorizer, generic contextualizer) created by the real mechanism factory from a generated prototype (0-3 endpoint "
             "headers, 0-3 values, api-key/basic auth strategies, templated URL/headers/payload, forwarded headers/cookies, ttl "
             "unset/positive/0), optionally a rule-level reconfiguration (assertions, expressions, payload, values, ttl, forwarded "
             "names) and a near-copy sibling prototype (different id; id/payload, header name/value, api-key, basic-auth fields "
-            "shifted across their boundaries; url, method changed); each step is derived from an earlier one as identical / other "
-            "instance / one request component changed (subject, attribute, each referenced header, cookie, output, credential) / "
-            "two values shifted against each other; every history runs against one shared recording cache, again without cache, "
-            "and one step 20 times against empty caches (map order); a local httptest server plays the remote systems and echoes what "
-            "it receives. Corpus (witnesses of C11-F1,F2,F3,F4,F6,F7 and a finding-free history) first. Non-trivial = at least two "
-            "cache look-ups in the history; distinct by hash of the generated input (test-server port masked).",
+            "shifted across their boundaries; url, method, payload, forwarded names changed); each step is derived from an earlier one "
+            "as identical / other instance / one request component changed (subject, attribute, each referenced header, cookie, output, "
+            "credential) / two values shifted against each other; every history runs against one shared recording cache, again without "
+            "cache, and one step 20 times against empty caches (map order); a local httptest server plays the remote systems and echoes "
+            "what it receives. Stream keys: histories of the client-credentials token cache (components changed one at a time, scopes and "
+            "id|secret shifted), of the jwt finalizer with key-store reloads (same / new key id, failing reload), of the jwt "
+            "authenticator's key cache (templated or literal JWKS URL, three issuers sharing a key id, honest and forged issuer claims, "
+            "other signer, unknown key id; real ES256 signatures) and of the RFC 7234 cache of an endpoint (GET/POST, payload, Vary "
+            "none/X-User/X-Other/both, max-age/no-store). Corpora (12 endpoint-component probes, finding-free histories, the witnesses "
+            "of every open and fixed finding, the witness of seeded change C05-1) first. Non-trivial = at least two cache look-ups in "
+            "the history; distinct by hash of the generated input (test-server port masked).",
     "anchors": ["internal/rules/endpoint/endpoint.go", "internal/rules/mechanisms/authorizers/remote_authorizer.go",
                 "internal/rules/mechanisms/contextualizers/generic_contextualizer.go",
                 "internal/rules/mechanisms/authenticators/generic_authenticator.go",
@@ -57,23 +62,30 @@ P = {
         "the case); CEL expressions are restricted to true/false/(in)equality on the echoed body and url",
         "the driver mirrors WithConfig's merge to compute the effective configuration of a rule-level instance (a mismatch shows "
         "as a correspondence failure)",
+        "stream keys: ES256 signature verification, JWK thumbprints and the RFC 7234 response parser (cachecontrol) are oracles "
+        "(which key verifies a token / thumbprint bytes / 'storable' are case data); the harness's servers are honest about Vary",
     ],
     "level_text": "Proof (kernel-checked, no axioms) about a byte-exact model of the key derivations (Endpoint.Hash, strategy and "
                   "subject hashes, calculateCacheKey of introspection / generic authenticator / remote authorizer / generic "
-                  "contextualizer) and of their look-up/validate/store logic: pre-images are injective on their writes unless two "
-                  "writes differ in length (no boundary shifting), keys do not depend on map iteration order with at most one "
-                  "header and value, for ALL histories the cache changes no outcome iff requests sharing a key have the same fresh "
-                  "result, and an identical request after an allowed one is answered without a remote call; each of the six open "
-                  "findings has a guard and a proved two-request witness. The model is tied to the code by running ~1000 (quick) / "
-                  "30000 (thorough) generated histories per run through the real mechanisms with a recording cache and comparing keys "
-                  "(via the SHA-256 table), hits, remote call counts and outcomes with and without cache inside Coq.",
-    "level_note": "Trusted: Coq kernel/vm_compute; the correspondence harness (generator, echo server, recording cache, rendering); "
-                  "SHA-256 as a parameter (observed digests; injectivity assumed only where stated); map order, json.Marshal, the "
-                  "template fragment and the CEL fragment as listed. Open findings C11-F1 (iteration order), F2 (assertions skipped "
-                  "on hit), F3 (expressions skipped on hit), F4 (delimiter-less concatenation), F6 (forwarded header/cookie values "
-                  "not in key), F7 (.Outputs in endpoint templates not in key) are observed on every run (corpus). C11-F5 (jwt "
-                  "finalizer after same-kid reload) was replayed on the real code (docs/notes/C11.md) and is covered by C16-F1; "
-                  "jwt finalizer, client-credentials and httpcache keys are modelled (Model.v) but not yet driven by this stream.",
+                  "contextualizer / jwt authenticator key cache / jwt finalizer / client credentials / RFC 7234 cache) and of their "
+                  "look-up/validate/store logic: pre-images are injective on their writes unless two writes differ in length (no "
+                  "boundary shifting); keys do not depend on map iteration order; equal keys imply equal key components for "
+                  "well-formed instances (key injectivity, SHA-256 assumed collision-free); for ALL histories, instances, requests "
+                  "and iteration orders on which no guard of an open finding fires, every outcome with the cache equals the outcome of "
+                  "a fresh evaluation under the instance's own policy (cache transparency, also for the token caches, the key cache "
+                  "with forged issuer claims and the finalizer across key-store reloads); an identical request after an allowed one "
+                  "is answered without a remote call. Every open finding (F4, F6, F7, F8, F9) has a guard and a proved witness; the "
+                  "repaired ones (F1, F2, F3, F5) are model switches with the pinned behaviour kept as refutation. The model is tied to "
+                  "the code by running ~800+300 (quick) / 12000+6000 (thorough) generated histories per run through the real mechanisms "
+                  "with a recording cache and comparing keys (via the SHA-256 table), hits, remote call counts and outcomes with and "
+                  "without cache inside Coq.",
+    "level_note": "Trusted: Coq kernel/vm_compute; the correspondence harness (generator, echo/token/JWKS servers, recording cache, "
+                  "rendering); SHA-256 as a parameter (observed digests; injectivity assumed only where stated); map order, "
+                  "json.Marshal, JWK thumbprints, the RFC 7234 parser, the template fragment and the CEL fragment as listed. Open "
+                  "findings observed on every run (corpus): C11-F4 (delimiter-less concatenation), F6 (forwarded header/cookie values, "
+                  "generic authenticator payload not in key), F7 (.Outputs in endpoint templates not in key), F8 (httpcache ignores "
+                  "Vary), F9 (httpcache answers POST from the cache whatever the body). Fixed and modelled as switches: F1 9b4883e, "
+                  "F2 deaddf0, F3 abe584c, F5 d9caf75.",
     "assumptions": [
         "time is not modelled: all look-ups of a history happen within the TTL (expiry is C10)",
         "the remote system is a deterministic function of the request it receives (what 'a fresh evaluation would yield' means)",
